@@ -12,6 +12,10 @@
 //   decHas/decVal                     what gob decodes from stored bytes (enc/dec round trip assumed)
 //   announcedLive/announcedDead       what the response of a context tells the client about the id (cookie or header),
 //                                     macros over the fasthttp header/cookie ghosts (zz_contracts_cookie_verif.go)
+//   pooledObj (deps/mw_C15.spec)      the objects that are in a sync.Pool (or were never handed out): set by Pool.Put,
+//                                     cleared by Pool.Get; `!pooledObj[x]` is required at every release of a Session,
+//                                     Middleware or buffer object - no object is released twice, so no two users of a
+//                                     pool ever share one (two requests sharing a *Session would mix ids and data)
 // System invariant carried by requires/ensures: every id present in the session store was issued by
 // the server (stored-only-issued), and every live Session object carries an issued id (wfSession).
 // "Never adopt" is then: a Session handed out has an issued id, and an id that already existed is only
@@ -116,12 +120,16 @@ package session
 //@   ensures exactly-the-encoder-output: result1 == nil ==> str(result0) == gobOut && len(result0) > 0
 //@   ensures own-array: result1 == nil ==> !old(allocated(arr(result0)))
 //@   ensures error-no-bytes: result1 != nil ==> result0 == nil
+//@   atcall @sync.(*Pool).Put: buffer-put-once: !pooledObj[poolObj(x)]
+//@   ensures pools-as-before: pooledObj == old(pooledObj)
 //@   trusted ensures result1 == nil ==> forallI(k, decHas(gobOut, k) <==> indom(s.data.Data, k)) && forallI(k, indom(s.data.Data, k) ==> decVal(gobOut, k) == s.data.Data[k])
 //@ func (*Session).decodeSessionData
 //@   requires has-data: s.data != nil
 //@   modifies heap(MD_any_any), heap(MV_any_any), bufStr, gobIn
 //@   atcall @sync.(*Pool).Put: pool-invariant: isBufferPool(p) && typeis(x, *bytes.Buffer) && as(x, *bytes.Buffer) != nil && bufStr[as(x, *bytes.Buffer)] == ""
 //@   ensures decoder-got-exactly-the-raw-data: gobIn == old(str(rawData))
+//@   atcall @sync.(*Pool).Put: buffer-put-once: !pooledObj[poolObj(x)]
+//@   ensures pools-as-before: pooledObj == old(pooledObj)
 //@   trusted ensures result == nil ==> forallI(k, indom(s.data.Data, k) <==> (old(indom(s.data.Data, k)) || decHas(gobIn, k)))
 //@   trusted ensures result == nil ==> forallI(k, s.data.Data[k] == ite(decHas(gobIn, k), decVal(gobIn, k), old(s.data.Data[k])))
 
@@ -286,6 +294,8 @@ package session
 // touched since, and no object is handed to two users. Hence what Get returns satisfies what is proved at EVERY Put
 // on that pool (`pool-invariant` obligations of releaseSession, releaseMiddleware, encodeSessionData,
 // decodeSessionData) and of its New function (`pool-new` obligations of init$1..init$4). dataPool is never Put to.
+// "No object is handed to two users" holds of sync.Pool only if no object is Put twice: that side is CHECKED
+// (`not-already-pooled` / `buffer-put-once` at every Put, `not-already-released` at every release).
 //@ macro sessUnlocked(s) = !held(s.mu) && (s.data == nil || (!held(s.data.RWMutex) && s.mu != s.data.RWMutex))
 //@ macro pooledData(d) = d != nil && d.Data != nil && forallI(k, !indom(d.Data, k)) && !held(d.RWMutex)
 // (the pools are named through spec functions: in an atcall clause the bare name of a struct-valued package variable
@@ -293,7 +303,13 @@ package session
 //@ fn isSessionPool(p ref) bool = p == sessionPool
 //@ fn isDataPool(p ref) bool = p == dataPool
 //@ fn isBufferPool(p ref) bool = p == byteBufferPool
-//@ func @sync.(*Pool).Get(p) assumed pure allocates
+// (double release) pooledObj (deps/mw_C15.spec) is the set of objects that are in a pool or were never handed out; Put
+// sets the flag, Get clears it: what Get returns was in that set - nobody else holds it - and leaves it. Objects of
+// dataPool are never Put back (a released Session keeps its data object), so that pool is not tracked.
+//@ func @sync.(*Pool).Get(p) assumed allocates
+//@   modifies pooledObj
+//@   ensures handed-to-one-user: !isDataPool(p) ==> old(pooledObj[poolObj(result)]) && pooledObj == old(pooledObj)[poolObj(result) := false]
+//@   ensures data-pool-not-tracked: isDataPool(p) ==> pooledObj == old(pooledObj)
 //@   ensures session-pool: isSessionPool(p) ==> typeis(result, *Session) && as(result, *Session) != nil && pooledSession(as(result, *Session)) && sessUnlocked(as(result, *Session))
 //@   ensures data-pool: isDataPool(p) ==> typeis(result, *data) && pooledData(as(result, *data))
 //@   ensures buffer-pool: isBufferPool(p) ==> typeis(result, *bytes.Buffer) && as(result, *bytes.Buffer) != nil && bufStr[as(result, *bytes.Buffer)] == ""
@@ -318,24 +334,35 @@ package session
 //@   pure
 //@   atcall @sync.(*Pool).Get: own-pool: isDataPool(p)
 //@   ensures empty-map: pooledData(result)
+//@   ensures pools-untouched: pooledObj == old(pooledObj)
 
 // acquireSession: a scrubbed Session object (nothing of its previous user) with an empty data map, marked fresh.
 //@ func acquireSession
-//@   modifies Session.data, Session.fresh
+//@   modifies Session.data, Session.fresh, pooledObj
 //@   atcall @sync.(*Pool).Get: own-pool: isSessionPool(p)
 //@   ensures pooled: result != nil && pooledSession(result) && result.data != nil && result.fresh && unlocked(result)
+// the object leaves the pool (or is new): nobody else holds it, and no later acquireSession returns it before it is released
+//@   ensures taken-from-the-pool: old(pooledObj[result]) && pooledObj == old(pooledObj)[result := false]
 
+// A Session object is released AT MOST ONCE per acquisition: an object that is already in the pool must not be put again
+// (two later acquireSession calls - two overlapping requests - would share it: ids and data of different clients mix).
 //@ func releaseSession
 //@   requires unlocked: !held(s.mu) && (s.data == nil || (!held(s.data.RWMutex) && s.mu != s.data.RWMutex))
+//@   requires not-already-released: !pooledObj[s]
 //@   lock s.mu protects lockToken
-//@   modifies s.id, s.idleTimeout, s.ctx, s.config, s.data.Data, lockToken
+//@   modifies s.id, s.idleTimeout, s.ctx, s.config, s.data.Data, lockToken, pooledObj
 //@   atcall @sync.(*Pool).Put: pool-invariant: isSessionPool(p) && typeis(x, *Session) && as(x, *Session) == s && pooledSession(s) && sessUnlocked(s)
+//@   atcall @sync.(*Pool).Put: not-already-pooled: !pooledObj[poolObj(x)]
 //@   ensures scrubbed: pooledSession(s)
+//@   ensures in-the-pool: pooledObj == old(pooledObj)[s := true]
 
+// ("The session should not be used after calling this function": that includes calling Release again.)
 //@ func (*Session).Release
 //@   requires unlocked: s == nil || (!held(s.mu) && (s.data == nil || (!held(s.data.RWMutex) && s.mu != s.data.RWMutex)))
-//@   modifies s.id, s.idleTimeout, s.ctx, s.config, s.data.Data, lockToken
+//@   requires not-already-released: s == nil || !pooledObj[s]
+//@   modifies s.id, s.idleTimeout, s.ctx, s.config, s.data.Data, lockToken, pooledObj
 //@   ensures scrubbed: s != nil ==> pooledSession(s)
+//@   ensures in-the-pool: pooledObj == ite(s == nil, old(pooledObj), old(pooledObj)[s := true])
 
 // ---------------------------------------------------------------------------------------------
 // store.go
@@ -355,7 +382,11 @@ package session
 // copies by construction; `stable` is a predicate on string values that only CopyString establishes, so the clause
 // leaves that case out.
 //@   ensures id-outlives-the-request: s.source != SourceHeader || reqCookie(c, s.sessionName, epoch) != "" ==> stable(result)
+// (added for the CSRF session back end, C16) all of the above in one term: presented(s, c), zz_contracts_locals_verif.go
+//@   ensures is-the-presented-id: result == presented(s, c)
 
+// the absolute deadline a session object carries is exactly the one in the stored bytes b (none if b has none)
+//@ macro deadlineAsStored(sess, b) = (indom(sess.data.Data, absKey()) <==> decHas(b, absKey())) && (decHas(b, absKey()) ==> sess.data.Data[absKey()] == decVal(b, absKey()))
 //@ macro seesStored(sess, b) = forallI(k, (k != absKey() || !sess.fresh) ==> (indom(sess.data.Data, k) <==> decHas(b, k)) && (decHas(b, k) ==> sess.data.Data[k] == decVal(b, k)))
 
 // getSession: the session a handler gets for a request.
@@ -363,7 +394,7 @@ package session
 //@   requires store-wf: wfStore(s)
 //@   requires stored-only-issued: storedIssued(s.Storage)
 //@   lock sess.mu protects lockToken
-//@   modifies Session.ctx, Session.config, Session.id, Session.fresh, Session.idleTimeout, Session.data, data.Data, heap(MD_any_any), heap(MV_any_any), stHas, locHas, locVal, bufStr, gobIn, issued, rqHdrHas, hdrCnt, rhLine, jarHas, jarVal, jarAttr, ckKey, ckVal, ckAttr, jcPath, jcExp, jcPooled, lockToken
+//@   modifies Session.ctx, Session.config, Session.id, Session.fresh, Session.idleTimeout, Session.data, data.Data, heap(MD_any_any), heap(MV_any_any), stHas, locHas, locVal, bufStr, gobIn, issued, rqHdrHas, hdrCnt, rhLine, jarHas, jarVal, jarAttr, ckKey, ckVal, ckAttr, jcPath, jcExp, jcPooled, lockToken, pooledObj
 //@   ensures never-adopts-unissued-id: result1 == nil ==> result0 != nil && result0.id != "" && issued[result0.id]
 //@   ensures existing-id-only-if-stored: result1 == nil && old(issued)[result0.id] ==> old(stHas)[s.Storage][result0.id]
 //@   ensures existing-id-sees-stored-data: result1 == nil && old(issued)[result0.id] ==> seesStored(result0, old(stVal)[s.Storage][result0.id])
@@ -376,6 +407,16 @@ package session
 //@   ensures stored-only-issued: storedIssued(s.Storage)
 //@   ensures wf: result1 == nil ==> wfSession(result0) && result0.config == s && result0.ctx == c
 //@   ensures error-no-session: result1 != nil ==> result0 == nil
+// Absolute timeout: a lookup does not move the deadline of an existing session. The session found under an id the CLIENT
+// presented carries exactly the stored deadline (an expired one is reset and comes back under a new id: then the premise
+// is false); only a session generated in this very request (id found in the request local) is stamped again. That this
+// exception cannot be reached with a client-presented id is the next two clauses: the request local is never written
+// with the id of a session that existed before the lookup, and not at all when the lookup fails - otherwise the NEXT
+// lookup of the request would take the existing session for a fresh one and push its absolute deadline forward, on every
+// request, for ever.
+//@   ensures existing-session-keeps-its-deadline: result1 == nil && !old(sidSet(c)) && old(issued)[result0.id] ==> deadlineAsStored(result0, old(stVal)[s.Storage][result0.id])
+//@   ensures existing-id-not-recorded-as-request-id: result1 == nil && old(issued)[result0.id] ==> sidSet(c) == old(sidSet(c)) && locVal[c][sidKey()] == old(locVal[c][sidKey()])
+//@   ensures failed-lookup-records-nothing: result1 != nil ==> sidSet(c) == old(sidSet(c)) && locVal[c][sidKey()] == old(locVal[c][sidKey()])
 // The id local of the request: only getSession writes it, only with the id it has just generated and returns; an id
 // found there marks the session fresh (the client has not seen it yet), an id presented by the client does not.
 //@   ensures locals-kept-but-the-request-id: localsKeptBut(c, sidKey())
@@ -384,6 +425,22 @@ package session
 //@   ensures new-id-recorded-for-the-request: result1 == nil && !old(issued)[result0.id] && forallS(k, stHas[s.Storage][k] == old(stHas[s.Storage][k])) ==> sidSet(c) && sidStr(c) == result0.id
 //@   ensures request-id-stays-issued: (old(sidSet(c)) ==> old(issued)[old(sidStr(c))]) ==> (sidSet(c) ==> issued[sidStr(c)])
 //@   ensures client-presented-id-fresh-iff-new: result1 == nil && !old(sidSet(c)) ==> (result0.fresh <==> !old(issued)[result0.id])
+// Pooled Session objects (pooledObj: in sessionPool or never handed out). The object handed to the caller comes out of
+// the pool - nobody else holds it - and is not put back; an object that is not handed out is released at most once
+// (requires of releaseSession/Release at every release) and nothing that somebody holds gets into the pool.
+//@   ensures handed-out-session-is-nobody-elses: result1 == nil ==> old(pooledObj[result0]) && !pooledObj[result0]
+//@   ensures only-the-result-leaves-the-pool: result1 == nil ==> forallI(x, x != result0 ==> pooledObj[x] == old(pooledObj[x]))
+//@   ensures no-held-object-is-pooled: forallI(x, pooledObj[x] ==> old(pooledObj[x]))
+// ... and exactly once: on failure the object is back in the pool (except when the Reset of an expired session failed:
+// that object is dropped, not pooled - a leak to the garbage collector, no sharing)
+//@   ensures failure-puts-the-object-back: result1 != nil && !called((*Session).Reset) ==> pooledObj == old(pooledObj)
+// (added for the CSRF session back end, C16) WHICH session: an id that existed is the id of the request (reqSid: the
+// request-id local, else the presented id) and is still in the store; a new id is recorded in the request-id local as a
+// string - unless it replaces the request's id because that session had passed its absolute deadline (Reset), then the
+// request's id is gone from the store.
+//@   ensures existing-id-is-the-requests: result1 == nil && old(issued)[result0.id] ==> result0.id == old(reqSid(s, c)) && stHas[s.Storage][result0.id]
+//@   ensures new-id-recorded-as-string: result1 == nil && !old(issued)[result0.id] && sidSet(c) && sidStr(c) == result0.id && (!old(sidSet(c)) || locVal[c][sidKey()] != old(locVal[c][sidKey()])) ==> sidIsStr(c)
+//@   ensures unrecorded-new-id-replaces-the-requests: result1 == nil && !old(issued)[result0.id] && !(sidSet(c) && sidIsStr(c) && sidStr(c) == result0.id) ==> !stHas[s.Storage][old(reqSid(s, c))] && old(stHas)[s.Storage][old(reqSid(s, c))]
 
 //@ macro storedExpired(b) = decHas(b, absKey()) && typeis(decVal(b, absKey()), time.Time) && !tIsZero(unboxOf(decVal(b, absKey()))) && pastDeadline(unboxOf(decVal(b, absKey())), epoch)
 //@ macro errorsSet() = ErrEmptySessionID != nil && ErrSessionAlreadyLoadedByMiddleware != nil && ErrSessionIDNotFoundInStore != nil
@@ -393,7 +450,7 @@ package session
 //@   requires store-wf: wfStore(s)
 //@   requires package-errors-initialised: errorsSet()
 //@   requires stored-only-issued: storedIssued(s.Storage)
-//@   modifies Session.ctx, Session.config, Session.id, Session.fresh, Session.idleTimeout, Session.data, data.Data, heap(MD_any_any), heap(MV_any_any), stHas, locHas, locVal, bufStr, gobIn, issued, rqHdrHas, hdrCnt, rhLine, jarHas, jarVal, jarAttr, ckKey, ckVal, ckAttr, jcPath, jcExp, jcPooled, lockToken
+//@   modifies Session.ctx, Session.config, Session.id, Session.fresh, Session.idleTimeout, Session.data, data.Data, heap(MD_any_any), heap(MV_any_any), stHas, locHas, locVal, bufStr, gobIn, issued, rqHdrHas, hdrCnt, rhLine, jarHas, jarVal, jarAttr, ckKey, ckVal, ckAttr, jcPath, jcExp, jcPooled, lockToken, pooledObj
 //@   ensures never-adopts-unissued-id: result1 == nil ==> result0 != nil && result0.id != "" && issued[result0.id]
 //@   ensures existing-id-only-if-stored: result1 == nil && old(issued)[result0.id] ==> old(stHas)[s.Storage][result0.id]
 //@   ensures existing-id-sees-stored-data: result1 == nil && old(issued)[result0.id] ==> seesStored(result0, old(stVal)[s.Storage][result0.id])
@@ -404,8 +461,22 @@ package session
 //@   ensures error-no-session: result1 != nil ==> result0 == nil
 // Inside a request managed by the session middleware Store.Get hands out no second Session object for the id (two
 // objects for one id would each save their own view): it fails with the documented error and touches nothing.
-//@   ensures refused-inside-middleware: old(mwLoaded(c)) ==> result0 == nil && result1 != nil && result1 == ErrSessionAlreadyLoadedByMiddleware && stHas == old(stHas) && issued == old(issued) && locHas == old(locHas) && locVal == old(locVal)
+//@   ensures refused-inside-middleware: old(mwLoaded(c)) ==> result0 == nil && result1 != nil && result1 == ErrSessionAlreadyLoadedByMiddleware && stHas == old(stHas) && issued == old(issued) && locHas == old(locHas) && locVal == old(locVal) && pooledObj == old(pooledObj)
+//@   ensures handed-out-session-is-nobody-elses: result1 == nil ==> old(pooledObj[result0]) && !pooledObj[result0]
+//@   ensures only-the-result-leaves-the-pool: result1 == nil ==> forallI(x, x != result0 ==> pooledObj[x] == old(pooledObj[x]))
+//@   ensures no-held-object-is-pooled: forallI(x, pooledObj[x] ==> old(pooledObj[x]))
+// (added for the CSRF session back end, C16: same clauses as getSession)
+//@   ensures existing-id-is-the-requests: result1 == nil && old(issued)[result0.id] ==> result0.id == old(reqSid(s, c)) && stHas[s.Storage][result0.id]
+//@   ensures request-id-changes-only-to-the-new-id: sidSet(c) != old(sidSet(c)) || locVal[c][sidKey()] != old(locVal[c][sidKey()]) ==> result1 == nil && sidSet(c) && sidStr(c) == result0.id && !old(issued)[result0.id]
+//@   ensures new-id-recorded-as-string: result1 == nil && !old(issued)[result0.id] && sidSet(c) && sidStr(c) == result0.id && (!old(sidSet(c)) || locVal[c][sidKey()] != old(locVal[c][sidKey()])) ==> sidIsStr(c)
+//@   ensures unrecorded-new-id-replaces-the-requests: result1 == nil && !old(issued)[result0.id] && !(sidSet(c) && sidIsStr(c) && sidStr(c) == result0.id) ==> !stHas[s.Storage][old(reqSid(s, c))] && old(stHas)[s.Storage][old(reqSid(s, c))]
+//@   ensures other-stores-only-shrink: forallI(o, o != s.Storage ==> forallS(k, stHas[o][k] ==> old(stHas[o][k])))
 //@   ensures locals-kept-but-the-request-id: localsKeptBut(c, sidKey())
+// absolute timeout (see getSession): the lookup does not move the deadline of an existing session, and does not mark it
+// as generated in this request
+//@   ensures existing-session-keeps-its-deadline: result1 == nil && !old(sidSet(c)) && old(issued)[result0.id] ==> deadlineAsStored(result0, old(stVal)[s.Storage][result0.id])
+//@   ensures existing-id-not-recorded-as-request-id: result1 == nil && old(issued)[result0.id] ==> sidSet(c) == old(sidSet(c)) && locVal[c][sidKey()] == old(locVal[c][sidKey()])
+//@   ensures failed-lookup-records-nothing: result1 != nil ==> sidSet(c) == old(sidSet(c)) && locVal[c][sidKey()] == old(locVal[c][sidKey()])
 
 // GetByID: only an id that is in the store yields a session, with exactly the stored data; an id whose
 // absolute deadline has passed yields none and is removed.
@@ -414,14 +485,22 @@ package session
 //@   requires package-errors-initialised: errorsSet()
 //@   requires stored-only-issued: storedIssued(s.Storage)
 //@   lock sess.mu protects lockToken
-//@   modifies Middleware.destroyed, Session.ctx, Session.config, Session.id, Session.fresh, Session.idleTimeout, Session.data, data.Data, heap(MD_any_any), heap(MV_any_any), stHas, bufStr, gobIn, rqHdrHas, hdrCnt, rhLine, jarHas, jarVal, jarAttr, ckKey, ckVal, ckAttr, jcPath, jcExp, jcPooled, lockToken
+//@   modifies Middleware.destroyed, Session.ctx, Session.config, Session.id, Session.fresh, Session.idleTimeout, Session.data, data.Data, heap(MD_any_any), heap(MV_any_any), stHas, bufStr, gobIn, rqHdrHas, hdrCnt, rhLine, jarHas, jarVal, jarAttr, ckKey, ckVal, ckAttr, jcPath, jcExp, jcPooled, lockToken, pooledObj
 //@   ensures only-stored-id: result1 == nil ==> result0 != nil && id != "" && result0.id == id && old(stHas)[s.Storage][id] && !result0.fresh
 //@   ensures sees-stored-data: result1 == nil ==> seesStored(result0, old(stVal)[s.Storage][id])
+//@   ensures keeps-its-deadline: result1 == nil ==> deadlineAsStored(result0, old(stVal)[s.Storage][id])
 //@   ensures expired-not-returned: result1 == nil && s.AbsoluteTimeout > 0 ==> !expiredNow(result0)
 //@   ensures stored-expired-yields-none: s.AbsoluteTimeout > 0 && id != "" && old(stHas)[s.Storage][id] && storedExpired(old(stVal)[s.Storage][id]) ==> result0 == nil && result1 != nil
 //@   ensures store-only-shrinks: forallS(k, stHas[s.Storage][k] ==> old(stHas[s.Storage][k])) && stVal == old(stVal)
 //@   ensures others-untouched-by-expiry: forallI(o, o != s.Storage ==> forallS(k, stHas[o][k] ==> old(stHas[o][k])))
 //@   ensures wf: result1 == nil ==> wfSession(result0) && result0.config == s && result0.ctx == nil
+// Pooled Session objects: see getSession. Every release is of an object that is not in the pool (requires of Release), so
+// no path releases the acquired object twice; on failure it is back in the pool - except for an expired session whose
+// Destroy succeeded: that object is dropped, not pooled (a leak to the garbage collector, no sharing).
+//@   ensures handed-out-session-is-nobody-elses: result1 == nil ==> old(pooledObj[result0]) && !pooledObj[result0]
+//@   ensures only-the-result-leaves-the-pool: result1 == nil ==> forallI(x, x != result0 ==> pooledObj[x] == old(pooledObj[x]))
+//@   ensures no-held-object-is-pooled: forallI(x, pooledObj[x] ==> old(pooledObj[x]))
+//@   ensures failure-puts-the-object-back: result1 != nil && !(called((*Session).Destroy) && last((*Session).Destroy) == nil) ==> pooledObj == old(pooledObj)
 //@   ensures error-no-session: result1 != nil ==> result0 == nil
 
 // Store.Delete / Store.Reset: the id / every id of this store no longer yields data.
@@ -446,26 +525,34 @@ package session
 // While a Middleware object serves a request (from initialize to releaseMiddleware) and m.mu is free, it
 // owns a well-formed session. This is the lock invariant of m.mu: the functions that take m.mu rely on
 // it at Lock and re-establish it at Unlock; initialize establishes it.
-//@ macro mwInv(m) = m.Session != nil && wfSession(m.Session) && storedIssued(stOf(m.Session)) && m.mu != m.Session.mu && m.mu != m.Session.data.RWMutex
+// (the managed Session object is held by the middleware, not in the pool: a handler must not Release it - documented at
+// (*Session).Release - or the middleware's own release after the handler would put it a second time. `m.Session != m`:
+// the engine has no type tags for pointers, so "a *Session is not a *Middleware" is carried by the invariant; initialize
+// proves it from the pool flags - m is held, the session object came out of the pool.)
+//@ macro mwInv(m) = m.Session != nil && wfSession(m.Session) && storedIssued(stOf(m.Session)) && m.mu != m.Session.mu && m.mu != m.Session.data.RWMutex && !pooledObj[m.Session] && m.Session != m
 //@ macro pooledMiddleware(m) = m.Session == nil && m.ctx == nil && !m.destroyed && m.config.Store == nil && m.config.Storage == nil
 
 // What the pool hands out is a scrubbed Middleware (sync.Pool assumption: see @sync.(*Pool).Get above); the Put
 // side is proved in releaseMiddleware, the New side in init$2.
 //@ func acquireMiddleware panics
-//@   pure
+//@   modifies pooledObj
 //@   atcall @sync.(*Pool).Get: own-pool: p == middlewarePool
 //@   ensures pooled: result != nil && pooledMiddleware(result) && !held(result.mu)
 //@   ensures on-no-context: unreferenced(result)
+//@   ensures taken-from-the-pool: old(pooledObj[result]) && pooledObj == old(pooledObj)[result := false]
 
 // A Middleware object that goes back to the pool must not be reachable through any context any more: the next request
 // that takes it from the pool makes it ITS session (FromContext on the old context would then read another session).
 //@ func releaseMiddleware
 //@   requires unlocked: !held(m.mu)
 //@   requires on-no-context: unreferenced(m)
+//@   requires not-already-released: !pooledObj[m]
 //@   lock m.mu protects lockToken
-//@   modifies heap, lockToken
+//@   modifies heap, lockToken, pooledObj
 //@   atcall @sync.(*Pool).Put: pool-invariant: p == middlewarePool && typeis(x, *Middleware) && as(x, *Middleware) == m && pooledMiddleware(m) && !held(m.mu) && unreferenced(m)
+//@   atcall @sync.(*Pool).Put: not-already-pooled: !pooledObj[poolObj(x)]
 //@   ensures scrubbed: pooledMiddleware(m)
+//@   ensures in-the-pool: pooledObj == old(pooledObj)[m := true]
 
 // Error handlers report the failure on the response; they are assumed not to touch sessions or the store.
 //@ func Config.ErrorHandler assumed
@@ -477,13 +564,17 @@ package session
 //@ func (*Middleware).initialize panics
 //@   requires unlocked: !held(m.mu)
 //@   requires store-wf: cfg.Store != nil && wfStore(cfg.Store) && storedIssued(cfg.Store.Storage)
-//@   modifies heap, stHas, locHas, locVal, bufStr, gobIn, issued, rqHdrHas, hdrCnt, rhLine, jarHas, jarVal, jarAttr, ckKey, ckVal, ckAttr, jcPath, jcExp, jcPooled, lockToken
+//@   requires caller-holds-the-middleware-object: !pooledObj[m]
+//@   modifies heap, stHas, locHas, locVal, bufStr, gobIn, issued, rqHdrHas, hdrCnt, rhLine, jarHas, jarVal, jarAttr, ckKey, ckVal, ckAttr, jcPath, jcExp, jcPooled, lockToken, pooledObj
+//@   ensures session-object-is-nobody-elses: old(pooledObj)[m.Session] && forallI(x, x != m.Session ==> pooledObj[x] == old(pooledObj[x]))
 //@   ensures owns-session: mwInv(m) && m.ctx == c && m.Session.ctx == c && m.Session.config == cfg.Store && !held(m.mu)
 //@   ensures never-adopts-unissued-id: issued[m.Session.id]
 //@   ensures existing-id-only-if-stored: old(issued)[m.Session.id] ==> old(stHas)[cfg.Store.Storage][m.Session.id]
 //@   ensures existing-id-sees-stored-data: old(issued)[m.Session.id] ==> seesStored(m.Session, old(stVal)[cfg.Store.Storage][m.Session.id])
 //@   ensures new-id-is-fresh-and-empty: !old(issued)[m.Session.id] ==> m.Session.fresh && forallI(k, k != absKey() ==> !indom(m.Session.data.Data, k))
 //@   ensures expired-session-not-seen: !m.Session.fresh ==> !expiredNow(m.Session)
+//@   ensures existing-session-keeps-its-deadline: !old(sidSet(c)) && old(issued)[m.Session.id] ==> deadlineAsStored(m.Session, old(stVal)[cfg.Store.Storage][m.Session.id])
+//@   ensures existing-id-not-recorded-as-request-id: old(issued)[m.Session.id] ==> sidSet(c) == old(sidSet(c)) && locVal[c][sidKey()] == old(locVal[c][sidKey()])
 //@   ensures store-only-shrinks: forallS(k, stHas[cfg.Store.Storage][k] ==> old(stHas[cfg.Store.Storage][k])) && stVal == old(stVal)
 // The middleware registers itself on the context: Store.Get refuses from now on, Session.Save of m.Session is a no-op.
 //@   ensures registered-on-the-context: mwLoaded(c) && mwOf(c) == m
@@ -493,8 +584,9 @@ package session
 //@ macro savedAs(m, st, id) = stHas[st][id] && forallI(k, old(indom(m.Session.data.Data, k)) <==> decHas(stVal[st][id], k)) && forallI(k, decHas(stVal[st][id], k) ==> old(m.Session.data.Data[k]) == decVal(stVal[st][id], k))
 //@ func (*Middleware).saveSession
 //@   requires owns-session: mwInv(m) && !held(m.mu)
-//@   modifies Session.idleTimeout, Session.id, Session.ctx, Session.config, data.Data, stHas, stVal, bufStr, gobOut, rqHdrHas, rqHdrVal, outHdr, outHdrSet, jarHas, jarVal, jarAttr, ckKey, ckVal, ckAttr, jcPath, jcExp, jcPooled, sentStatus, lockToken
+//@   modifies Session.idleTimeout, Session.id, Session.ctx, Session.config, data.Data, stHas, stVal, bufStr, gobOut, rqHdrHas, rqHdrVal, outHdr, outHdrSet, jarHas, jarVal, jarAttr, ckKey, ckVal, ckAttr, jcPath, jcExp, jcPooled, sentStatus, lockToken, pooledObj
 //@   atcall releaseSession: releases-own-session: s == m.Session
+//@   ensures session-released-once: pooledObj == old(pooledObj)[m.Session := true]
 //@   ensures persisted-or-failed: savedAs(m, old(stOf(m.Session)), old(m.Session.id)) || (stHas == old(stHas) && stVal == old(stVal))
 //@   ensures others-untouched: forallS(k, k != old(m.Session.id) ==> stHas[old(stOf(m.Session))][k] == old(stHas[stOf(m.Session)][k]) && stVal[old(stOf(m.Session))][k] == old(stVal[stOf(m.Session)][k])) && forallI(o, o != old(stOf(m.Session)) ==> stHas[o] == old(stHas[o]) && stVal[o] == old(stVal[o]))
 //@   ensures session-scrubbed: pooledSession(m.Session)
